@@ -23,6 +23,7 @@ CONSTANTS Callers, Unit, Mode,     \* as in AsyncDriver: caller -> Seq([dt, twic
           CancelAt,                \* ... while they are in one of these states ("lockwait", "confwait", "respwait")
           MaxStale,                \* answers to other masters' queries the gateway may report
           MaySilence,              \* the gateway may stop confirming (once)
+          ConfPerTwice,            \* confirmations for a send-twice command: 2 (LUBA) or 1 (SCI)
           FlushAfterConfirm        \* variant: the raw-answer queue is (also) flushed when the frame has been confirmed
 
 VARIABLES pc, idx, sub, need, results, exc,
@@ -75,7 +76,7 @@ Grant(c) ==
 \* ---- one frame: flush (at the start of a send() call), write, then wait for the confirmations -----------------------
 \* what the gateway will report for the frame
 Reports(c, i, s) ==
-    LET n == IF s = "cmd" /\ Unit[c][i].twice THEN 2 ELSE 1
+    LET n == IF s = "cmd" /\ Unit[c][i].twice THEN ConfPerTwice ELSE 1
         confs == [k \in 1..n |-> [kind |-> "conf", tag |-> <<c, i>>]]
         ans == IF s = "cmd" /\ Unit[c][i].query
                THEN (CASE Outcome[c][i] = "val" -> <<[kind |-> "back", tag |-> <<c, i>>]>>
@@ -92,7 +93,7 @@ WriteStep(c) ==
     /\ respq' = IF StartsSend(c) THEN <<>> ELSE respq                \* reset_dali_response()
     /\ wire' = Append(wire, <<c, idx[c], sub[c]>>)
     /\ gw' = IF silent THEN gw ELSE gw \o Reports(c, idx[c], sub[c])
-    /\ need' = [need EXCEPT ![c] = IF sub[c] = "cmd" /\ Cmd(c).twice THEN 2 ELSE 1]
+    /\ need' = [need EXCEPT ![c] = IF sub[c] = "cmd" /\ Cmd(c).twice THEN ConfPerTwice ELSE 1]
     /\ pc' = [pc EXCEPT ![c] = "confwait"]
     /\ UNCHANGED <<idx, sub, results, exc, lockHeld, lockOwner, waiters, woken, cancelledW, confq, stale, silent>>
 
